@@ -2,6 +2,10 @@ package checks
 
 import (
 	"fmt"
+	"runtime"
+	"strings"
+
+	"verif/h/mon"
 
 	"verif/h/refsrv"
 	"verif/h/rfc8907"
@@ -196,6 +200,27 @@ func (rc *refConn) send(h rfc8907.Header, clear []byte, wellFormed bool) stepRes
 		}
 	}
 	return res
+}
+
+// stuckServerFrame looks, after a watchdog, for a quiescent-state witness of a server
+// goroutine that is stuck while processing a request: a goroutine with a tacquito frame
+// parked on a lock. It returns the first tacquito frame of that goroutine, or "".
+func stuckServerFrame() string {
+	buf := make([]byte, 4<<20)
+	buf = buf[:runtime.Stack(buf, true)]
+	for _, g := range strings.Split(string(buf), "\n\n") {
+		head := g
+		if i := strings.IndexByte(g, '\n'); i > 0 {
+			head = g[:i]
+		}
+		if !strings.Contains(g, "facebookincubator/tacquito") {
+			continue
+		}
+		if strings.Contains(head, "Lock]") || strings.Contains(head, "Lock,") {
+			return mon.FirstTacquitoFrame(g)
+		}
+	}
+	return ""
 }
 
 // judgeC07 applies the one-request-one-reply oracle to a step.
